@@ -6,6 +6,7 @@ import Ubx.Model.PyHosts
 import Ubx.Model.PyReaderHosts
 import Ubx.Model.PyConfigHosts
 import Ubx.Model.PyWalkHosts
+import Ubx.Model.PyDoHosts
 /-!
 # Line-protocol driver: one operation per input line, one answer per output line.
 The Python harness (tools/harness) sends the same operations to the real pyubx2 and diffs.
@@ -289,46 +290,30 @@ def pylCfgOut (r : Py.X Py.CO (Py.V Py.CO)) : String :=
 
 /-! ### `pyl-construct`: the constructor's attribute walk done by the *translated* walker methods, interpreted together
 (`recHost`: `_set_attribute` → `_set_attribute_group` / `_set_attribute_single` / `_calc_num_repeats` → `_set_attribute` …);
-definition lookup, exception translation and length / checksum are the model's (`_get_dict`, `_do_attributes` are not translated) -/
+`_do_attributes` as written drives them; definition lookup and length / checksum are the model's (`_get_dict`, `_do_len_checksum` answered by the host) -/
 
 def allExcs : List Exc := [.ubxParse, .ubxMessage, .ubxType, .ubxStream, .indexE, .typeE, .valueE, .overflowE, .attributeE,
   .structE, .keyE, .zeroDivE, .unboundLocalE, .unicodeE, .memoryE]
 def excOfName (n : Name) : Option Exc := allExcs.find? (fun e => Py.excName e == n)
 
-def pylWalkItems (H : Py.Host Py.AO Py.ASt) (defn : Defn) : List Item → Nat → Py.ASt → Except String (R (Nat × Py.ASt))
-  | [], off, st => .ok (.ok (off, st))
-  | it :: rest, off, st =>
-    match H.mcall (.host .self) Py.mSetAttr [.str (Py.Item.key it), .host (.dict defn), .int off, Py.idxT [], .host .kwargs] [] st with
-    | (.ok (.tuple [.int off', _]), st') => pylWalkItems H defn rest off'.toNat st'
-    | (.ok _, _) => .error "bad-value"
-    | (.error (.exc c _), _) =>
-      if c = Py.xUnsupported then .error "unsupported" else if c = Py.xFuel then .error "diverges"
-      else match excOfName c with
-        | some e => .ok (.error e)
-        | none => .error ("pyl-error:" ++ nameStr c)
-    | (.error _, _) => .error "pyl-error:non-exception"
-
 def pylConstruct (cls id : Bytes) (modeN : Nat) (bf : Bool) (kw : Kw) : String :=
   match Mode.ofNat? modeN with
   | none => resDump (.error .ubxMessage)
   | some mode =>
-    let finish (pe : Option Bytes × Env) : String :=
-      match lenChecksum cls id pe.1 with
-      | .error e => resDump (.error (translateExc Gen.ctx e))
-      | .ok lc => resDump (.ok { cls := cls, id := id, mode := mode, payload := pe.1, length := lc.1, checksum := lc.2,
-                                 parsebf := bf, env := pe.2, immutable := true })
-    match kw with
-    | .empty => finish (none, [])
-    | _ =>
-      match getDict Gen.ctx cls id mode kw with
-      | .error e => resDump (.error (translateExc Gen.ctx e))
-      | .ok defn =>
-        let wc := walkCtx Gen.ctx cls id mode bf kw
-        let H := Py.recHost wc cls id modeN pylFuel 64
-        match pylWalkItems H defn defn 0 ⟨(kwPayload? kw).getD [], []⟩ with
-        | .error s => s
-        | .ok (.error e) => resDump (.error (translateExc Gen.ctx e))
-        | .ok (.ok (_, st)) => finish (some st.payload, st.env)
+    let wc := walkCtx Gen.ctx cls id mode bf kw
+    let H := Py.doHost Gen.ctx cls id mode kw (Py.recHost wc cls id modeN pylFuel 64)
+    match Py.runFn H pylFuel Gen.Code.fn_UBXMessage__do_attributes [.host .self, .host .kwargs] ⟨some [], [], none⟩ with
+    | (.ok _, st) =>
+      (match st.lenck with
+       | some lc => resDump (.ok { cls := cls, id := id, mode := mode, payload := st.payload, length := lc.1, checksum := lc.2,
+                                   parsebf := bf, env := st.env, immutable := true })
+       | none => "bad-value")
+    | (.error (.exc c _), _) =>
+      if c = Py.xUnsupported then "unsupported" else if c = Py.xFuel then "diverges"
+      else match excOfName c with
+        | some e => resDump (.error e)
+        | none => "pyl-error:" ++ nameStr c
+    | (.error _, _) => "pyl-error:non-exception"
 
 def handlePyl (toks : List String) : String :=
   match toks with
